@@ -162,7 +162,7 @@ Section Lower.
         | _ => LUnmodelled
         end
     | XPre inc x t | XPost inc x t =>
-        let '(st0, one) := create_const st (ad t) (KInt 1) in
+        let '(st0, one) := create_const st (ad t) (match ad t with ITFloat => KFloat one | _ => KInt 1 end) in
         ldo sc <- scope_of st0 x;
         let '(st1, a) := emit st0 (ad t) (ILoad sc (VName x)) in
         let '(st2, b) := emit st1 (ad t) (IBin (if inc then BAdd else BSub) a one) in
